@@ -269,9 +269,9 @@ func (d *Dumper) ValueLit(in any, optFns ...ValueLitOptFn) string {
 	case reflect.Bool:
 		return strconv.FormatBool(rv.Bool())
 	case reflect.Float32:
-		return strconv.FormatFloat(rv.Float(), 'f', -1, 32)
+		return floatLit(rv.Float(), 32)
 	case reflect.Float64:
-		return strconv.FormatFloat(rv.Float(), 'f', -1, 64)
+		return floatLit(rv.Float(), 64)
 	case reflect.String:
 		return strconv.Quote(rv.String())
 	case reflect.Interface:
@@ -284,4 +284,14 @@ func (d *Dumper) ValueLit(in any, optFns ...ValueLitOptFn) string {
 	default:
 		panic(fmt.Errorf("%s is an unsupported type", tpe.String()))
 	}
+}
+
+func floatLit(f float64, bitSize int) string {
+	s := strconv.FormatFloat(f, 'f', -1, bitSize)
+	if len(s) > 20 {
+		// hundreds of digits: without a decimal point an integer constant the compiler rejects
+		// ("constant overflow"), with one just unreadable; the exponent form is exact and short
+		return strconv.FormatFloat(f, 'g', -1, bitSize)
+	}
+	return s
 }
